@@ -8,6 +8,9 @@ classes; every theorem here is about those very definitions, for every commutati
 (so over ℝ and ℚ), every number of atoms `n`, every recipe with `R Rᵀ = I` (`IsOrtho`) and a
 bijective atom map, mirror on and off unless a hypothesis says otherwise.
 
+The step from these algebraic clauses to "gradient / Hessian covariance for EVERY invariant energy"
+(Fréchet derivatives over ℝ) is proved in `Props/C13Calculus.lean`.
+
 PROPERTY-THEOREMS (audited by the harness):
   blockwise_roundtrip blockwise_roundtrip' coords_affine gradient_is_J pairing_preserved
   hessian_form_preserved hessian_is_JtHJ atoms_same_map coords_isometry vector_rotates
